@@ -1697,6 +1697,14 @@ def m_combinator(kind, which):
                     out.extend(call(args[1], [p], ident) if v == 'Some' else fin(FALSE))
                 elif which == 'ok_or_else':
                     out.extend(fin(ok(p)) if v == 'Some' else call(args[1], [], err))
+                elif which == 'or_else':
+                    out.extend(fin(some(p)) if v == 'Some' else call(args[1], [], ident))
+                elif which == 'or':
+                    out.extend(fin(some(p)) if v == 'Some' else fin(args[1]))
+                elif which == 'and':
+                    out.extend(fin(args[1]) if v == 'Some' else fin(none))
+                elif which == 'is_none_or':
+                    out.extend(call(args[1], [p], ident) if v == 'Some' else fin(TRUE))
                 elif which == 'filter':
                     if v == 'Some':
                         def k(s3, r, p_=p):
@@ -1724,6 +1732,14 @@ def m_combinator(kind, which):
                     out.extend(call(args[2], [p], ident) if v == 'Ok' else fin(args[1]))
                 elif which == 'is_ok_and':
                     out.extend(call(args[1], [p], ident) if v == 'Ok' else fin(FALSE))
+                elif which == 'is_err_and':
+                    out.extend(call(args[1], [p], ident) if v == 'Err' else fin(FALSE))
+                elif which == 'or_else':
+                    out.extend(fin(ok(p)) if v == 'Ok' else call(args[1], [p], ident))
+                elif which == 'map_or_else':
+                    out.extend(call(args[2], [p], ident) if v == 'Ok' else call(args[1], [p], ident))
+                elif which == 'err':
+                    out.extend(fin(some(p)) if v == 'Err' else fin(none))
         return out
     return m
 
@@ -1900,6 +1916,29 @@ def m_max_min(which):
     return m
 
 
+def m_partial_ord(op):
+    """`a < b` etc. on a newtype struct that DERIVES PartialOrd (one field): the comparison of the fields"""
+    def m(eng, st, args, info):
+        tys = info['term'].get('arg_tys', [])
+        if len(args) != 2 or not tys:
+            return None
+        ty = tys[0].lstrip('&').strip()
+        adt = eng.facts.adts.get(ty)
+        impl = eng.facts.fns.get('<%s as std::cmp::PartialOrd>::partial_cmp' % ty)
+        if adt is None or impl is None or not impl.derived or len(adt['variants']) != 1 or len(adt['variants'][0]['fields']) != 1:
+            return None
+        fname = adt['variants'][0]['fields'][0]['name']
+
+        def val(t_):
+            while t_[0] == 'ref':
+                t_ = eng._read_lv(st, t_[1]) if t_[1][0] == 'L' else t_[1]
+                if t_[0] == 'K':
+                    t_ = t_[1]
+            return field(t_, fname)
+        return [(st, binop(op, val(args[0]), val(args[1]), 'bool'))]
+    return m
+
+
 def m_log_le(eng, st, args, info):
     tys = info['term'].get('arg_tys', [])
     if tys and 'log::Level' in tys[0]:
@@ -2021,7 +2060,10 @@ DEFAULT_FOLD_ONLY = {
 }
 
 DEFAULT_MODELS = {
-    'std::cmp::PartialOrd::le': m_log_le,
+    'std::cmp::PartialOrd::le': lambda eng, st, args, info: (m_log_le(eng, st, args, info) or m_partial_ord('Le')(eng, st, args, info)),
+    'std::cmp::PartialOrd::lt': m_partial_ord('Lt'),
+    'std::cmp::PartialOrd::gt': m_partial_ord('Gt'),
+    'std::cmp::PartialOrd::ge': m_partial_ord('Ge'),
     "core::fmt::rt::Argument::<'_>::new_display": m_new_display,
     "core::fmt::rt::Argument::<'_>::new_debug": m_new_debug,
     "std::fmt::Arguments::<'a>::new": m_arguments_new,
@@ -2063,6 +2105,14 @@ DEFAULT_MODELS = {
     'std::option::Option::<T>::is_some_and': m_combinator('option', 'is_some_and'),
     'std::option::Option::<T>::ok_or_else': m_combinator('option', 'ok_or_else'),
     'std::option::Option::<T>::filter': m_combinator('option', 'filter'),
+    'std::option::Option::<T>::or_else': m_combinator('option', 'or_else'),
+    'std::option::Option::<T>::or': m_combinator('option', 'or'),
+    'std::option::Option::<T>::and': m_combinator('option', 'and'),
+    'std::option::Option::<T>::is_none_or': m_combinator('option', 'is_none_or'),
+    'std::result::Result::<T, E>::is_err_and': m_combinator('result', 'is_err_and'),
+    'std::result::Result::<T, E>::or_else': m_combinator('result', 'or_else'),
+    'std::result::Result::<T, E>::map_or_else': m_combinator('result', 'map_or_else'),
+    'std::result::Result::<T, E>::err': m_combinator('result', 'err'),
     'std::result::Result::<T, E>::and_then': m_combinator('result', 'and_then'),
     'std::result::Result::<T, E>::unwrap_or_else': m_combinator('result', 'unwrap_or_else'),
     'std::result::Result::<T, E>::unwrap_or': m_combinator('result', 'unwrap_or'),
